@@ -77,6 +77,8 @@ def tag_sites(m: str, nl: str) -> list[tuple[str, str]]:
     """(label, source). `nl` is '' or a newline placed inside the markup to spread it over lines."""
     s = []
     s.append(("tr", "{% translate" + nl + " %}" + m + "{% endtranslate %}"))
+    s.append(("tr-body-lines", "{% translate" + nl + " %}\n  " + m + "\n{% endtranslate %}"))
+    s.append(("tr-plural-body-lines", "{% translate" + nl + " count: 2 %}\n" + m + "\n{% plural %}\n" + m + "s\n{% endtranslate %}"))
     s.append(("tr-ctx", "{% translate" + nl + " context: 'ctx" + m + "' %}" + m + "{% endtranslate %}"))
     s.append(("tr-arg", "{% translate you: g" + nl + " %}" + m + " {{ you }}{% endtranslate %}"))
     for c in COUNTS:
@@ -181,10 +183,20 @@ def run_program(pieces: list[tuple[str, str]], partials: dict[str, str], data: d
     off = 0
     for k, t in pieces:
         if k.startswith("site:"):
-            first = source.count("\n", 0, off) + 1
-            last = source.count("\n", 0, off + len(t)) + 1
-            spans[k[5:]] = (first, last)
-            offsets[k[5:]] = off
+            mid = k[5:]
+            # the originating markup: the {% translate %} tag itself, or the markup that contains the message literal
+            at = t.find("{% translate")
+            if at < 0:
+                at = max(t.find("'" + mid + "'"), t.find('"' + mid + '"'))
+            if at < 0:
+                at = 0  # the literal lives in a partial template
+            start = max(t.rfind("{{", 0, at + 2), t.rfind("{%", 0, at + 2), 0)
+            ends = [x for x in (t.find("}}", at), t.find("%}", at)) if x >= 0]
+            end = min(ends) + 2 if ends else len(t)
+            first = source.count("\n", 0, off + start) + 1
+            last = source.count("\n", 0, off + end) + 1
+            spans[mid] = (first, last)
+            offsets[mid] = off
         elif k.startswith("comment:"):
             comment_lines[k[8:]] = off  # (source offset of the comment)
         off += len(t)
